@@ -47,6 +47,9 @@ theorem C01_kill_point (cfg : PCfg) (ops : List POp) (hv : ∀ op ∈ ops, op.va
       obtain ⟨e', as, hr, _, _, hp⟩ := pRestart_spec e d h
       simp only [pStep, hr]
       exact allPrefixes_mono (fun _ hd => Or.inl hd) _ _ hp
+    | ioFailed n =>
+      simp only [pStep, AllPrefixes]
+      exact Or.inl ⟨_, h.dinv⟩
   rcases allPrefixes_take d _ key k with hk | hk
   · obtain ⟨r, mx, h1, h2⟩ := recover_of_Rec _ _ hk
     exact ⟨r, mx, h1, Or.inl h2⟩
